@@ -217,12 +217,19 @@ class Loader:
         except be.ObjectNotFoundError:
             _LOGGER.warning('Server node not found: %s', servername)
 
-    def remove_server(self, servername):
-        """Remove server from scheduler."""
+    def remove_server(self, servername, unschedule=False):
+        """Remove server from scheduler.
+
+        If unschedule is set, the server is gone for good and the placement
+        records of the apps that were on it are removed as well.
+        """
         if servername not in self.servers:
             return
 
         server = self.servers[servername]
+        if unschedule:
+            for appname in server.apps:
+                self.backend.delete(z.path.placement(servername, appname))
         server.remove_all()
         server.parent.remove_node(server)
 
@@ -252,7 +259,7 @@ class Loader:
             data = self.backend.get(z.path.server(servername))
             if not data:
                 # The server is configured, but never reported it's capacity.
-                self.remove_server(servername)
+                self.remove_server(servername, unschedule=True)
                 return
 
             server = self.create_server(servername, data)
@@ -280,7 +287,7 @@ class Loader:
                     self.restore_placement(servername, restore_identity=False)
 
         except be.ObjectNotFoundError:
-            self.remove_server(servername)
+            self.remove_server(servername, unschedule=True)
             _LOGGER.warning('Server node not found: %s', servername)
 
     def create_server(self, servername, data):
